@@ -1375,6 +1375,34 @@ def request_form(rq):
     return dobj([(k, {"a": merged[k]}) for k in order])
 
 
+def form_claims(c):
+    """(the form parameters as sent, repeat, the document given to the form pass): Check.v recomputes the
+    document from the parameters with the model of GetFormValues"""
+    if c["mode"] == "httpx-form":
+        return [(c.get("doc") or dobj([]), c.get("repeat"), form_doc(c.get("doc") or dobj([]), c.get("repeat")))]
+    if c["mode"] == "parse" and (c.get("entry") or "Parse") in ("Parse", "ParseForm", "GetFormValues"):
+        f = request_form(c["req"])
+        return [(f, None, form_doc(f))]
+    return []
+
+
+def crform(d, repeat=None):
+    """r.Form as a Gallina rform"""
+    items = []
+    for kv in d["o"]:
+        v = kv["v"]
+        vals = [v] if "s" in v else v["a"]
+        items.append([kv["k"], clist([cstr(x["s"]) for x in vals])])
+    if repeat:
+        for it in items:
+            if it[0] == repeat["key"]:
+                it[1] = "(%s ++ repeat %s %d)%%list" % (it[1], cstr(repeat["val"]), repeat["n"])
+                break
+        else:
+            items.append([repeat["key"], "(repeat %s %d)" % (cstr(repeat["val"]), repeat["n"])])
+    return clist(["(%s, %s)" % (cstr(k), v) for k, v in items])
+
+
 def completion_prone(d):
     """recursiveValuer completes an object found under a name that an enclosing scope also holds as an
     object — in place, in the caller's map (go-zero's configuration inheritance; observed, see notes):
@@ -3268,7 +3296,8 @@ class C08(Property):
             vd = None           # the request validator belongs to httpx.Parse alone
         validator = "None" if vd is None else "(Some %s)" % cbool(vd == "accept")
         tags = clist(["(%s, %s, %s)" % (cstr(raw), cstr(key), copts(o)) for raw, key, o in claims])
-        return "mkOCall %s %s %s %s %s" % (clist(ps), validator, cbool(bool(obs.get("called"))), verdict, tags)
+        forms = clist(["(%s, %s)" % (crform(f, rep), "None" if d is None else "(Some %s)" % cdoc(d)) for f, rep, d in form_claims(case)])
+        return "mkOCall %s %s %s %s %s %s" % (clist(ps), validator, cbool(bool(obs.get("called"))), verdict, tags, forms)
 
     # ---- evidence -------------------------------------------------------------------
     @staticmethod
